@@ -415,7 +415,7 @@ func genCase(r *vh.Rand, o genOpts) Case {
 			outFlag(filepath.Dir(f) + "/")
 		case 1:
 			sp := stylePath(r, f) // the same spelling on both sides (different spellings are the K41 condition)
-			if !o.known || r.Bool() {
+			if r.Intn(3) != 0 { // same spelling; else two spellings of the same file (K41, fixed in /repo)
 				inputs = []string{sp}
 				outFlag(sp)
 			} else {
@@ -645,8 +645,14 @@ func genCase(r *vh.Rand, o genOpts) Case {
 	}
 
 	// known-finding shapes, only on request
-	if o.known && r.Chance(30, 100) {
-		switch r.Intn(5) {
+	// (the shapes of findings that were repaired in /repo — K41 links, N02 `src/.`, N03 sync of unknown types — are part of
+	// the default stream; N01 and N04 are open findings and generated only with -known)
+	if (o.known && r.Chance(30, 100)) || (!o.known && r.Chance(6, 100)) {
+		pick := r.Intn(5)
+		if !o.known {
+			pick = []int{0, 2, 3}[r.Intn(3)]
+		}
+		switch pick {
 		case 0: // K41: destination is a link to the source
 			f := pickKnown()
 			inputs = []string{f}
